@@ -218,6 +218,25 @@ fn generate(rep: &mut Report, seed: u64, index: u64, steps: usize) -> Hist {
         directed.push(victim);
         directed.push(del);
         directed.push(mk(&mut rng, 1, 303, vec![], big));
+        // a deletion request with 40 tags - far more than any plausible internal batch - whose real targets sit at the
+        // first, middle and last positions, the other tags naming ids that are not stored (they leave markers) and one
+        // address; the whole call is one unit
+        let victims: Vec<SemEvent> = (0..6).map(|k| mk(&mut rng, 1, 310 + k, vec![], 10)).collect();
+        let mut tags: Vec<Vec<String>> = vec![];
+        let at = [0usize, 10, 20, 31, 32, 39];
+        for pos in 0..40usize {
+            if let Some(k) = at.iter().position(|p| *p == pos) {
+                tags.push(vec!["e".into(), hex(&victims[k].id)]);
+            } else if pos == 35 {
+                tags.push(vec!["a".into(), format!("30023:{}:grow", hex(&a))]);
+            } else {
+                tags.push(vec!["e".into(), hex(&rng.arr32())]);
+            }
+        }
+        for v in victims {
+            directed.push(v);
+        }
+        directed.push(mk(&mut rng, 5, 330, tags, 10));
         for d in directed {
             if eng.aborted {
                 break;
@@ -559,6 +578,41 @@ pub fn run(args: &Args) -> Report {
                         }
                     }
                 }
+                // a call that passes one point many times (a request with dozens of tags, a vanish with dozens of
+                // targets): kills at its 1st, 2nd, 3rd, 4th, 5th, 8th, 9th, 16th, 17th, 32nd, 33rd, ... middle and last
+                // passage - internal batch boundaries are powers of two more often than not
+                let mut seg_start = 0usize;
+                let mut segs2: Vec<(usize, usize)> = vec![];
+                for (i, n) in names.iter().enumerate() {
+                    if i > seg_start && (n == "store.begin" || n == "vanish.begin" || n == "remove_event.begin" || n == "new.begin") {
+                        segs2.push((seg_start, i));
+                        seg_start = i;
+                    }
+                }
+                segs2.push((seg_start, names.len()));
+                for (a, b) in segs2 {
+                    let mut per: BTreeMap<&str, Vec<usize>> = BTreeMap::new();
+                    for i in a..b {
+                        per.entry(names[i].as_str()).or_default().push(i);
+                    }
+                    for (_, v) in per.into_iter().filter(|(_, v)| v.len() >= 8) {
+                        let n = v.len();
+                        let mut idx = vec![0usize, 1, n / 2, n - 1];
+                        let mut p2 = 2usize;
+                        while p2 < n {
+                            idx.push(p2);
+                            idx.push(p2 - 1);
+                            if p2 + 1 < n {
+                                idx.push(p2 + 1);
+                            }
+                            p2 *= 2;
+                        }
+                        for k in idx {
+                            chosen.push(v[k.min(n - 1)]);
+                        }
+                        rep.count("calls_passing_one_point_many_times");
+                    }
+                }
                 rep.count_n("distinct_call_shapes_x_points", seen_shape_point.len() as u64);
                 chosen.sort();
                 chosen.dedup();
@@ -661,6 +715,7 @@ pub fn run(args: &Args) -> Report {
             rep.require(&format!("killed_at:{must}"), &format!("no kill at {must}"));
         }
         rep.require("async_image:", "no asynchronous kill landed");
+        rep.require("calls_passing_one_point_many_times", "no call passed one point eight times or more (no long deletion request / vanish)");
         rep.require("histories_with_directed_growth_tail", "no history carried the directed tail (replacing / deleting stores that grow the map)");
     }
     rep
